@@ -276,6 +276,8 @@ impl<'a> LiveEvents<'a> {
             if *idx >= buf.len() {
                 // Exhausted: pop and continue (there may be another injected frame beneath).
                 self.inject.pop();
+                #[cfg(serde_saphyr_verif)]
+                crate::verif::emit(crate::verif::VerifEvent::InjectPop);
                 continue;
             }
 
@@ -315,6 +317,8 @@ impl<'a> LiveEvents<'a> {
             );
             self.last_location = ev.location();
             self.produced_any_in_doc = true;
+            #[cfg(serde_saphyr_verif)]
+            self.verif_pump(&ev, crate::verif::Source::Replay);
             return Ok(Some(ev));
         }
 
@@ -362,6 +366,8 @@ impl<'a> LiveEvents<'a> {
                     }
                     self.last_location = location;
                     self.produced_any_in_doc = true;
+                    #[cfg(serde_saphyr_verif)]
+                    self.verif_pump(&ev, crate::verif::Source::Parser);
                     return Ok(Some(ev));
                 }
 
@@ -397,6 +403,8 @@ impl<'a> LiveEvents<'a> {
                     );
                     self.last_location = location;
                     self.produced_any_in_doc = true;
+                    #[cfg(serde_saphyr_verif)]
+                    self.verif_pump(&ev, crate::verif::Source::Parser);
                     return Ok(Some(ev));
                 }
                 Event::SequenceEnd => {
@@ -406,6 +414,8 @@ impl<'a> LiveEvents<'a> {
                         .map_err(|err| err.with_location(location))?; // may finalize frames
                     self.last_location = location;
                     self.produced_any_in_doc = true;
+                    #[cfg(serde_saphyr_verif)]
+                    self.verif_pump(&ev, crate::verif::Source::Parser);
                     return Ok(Some(ev));
                 }
 
@@ -432,6 +442,8 @@ impl<'a> LiveEvents<'a> {
                     );
                     self.last_location = location;
                     self.produced_any_in_doc = true;
+                    #[cfg(serde_saphyr_verif)]
+                    self.verif_pump(&ev, crate::verif::Source::Parser);
                     return Ok(Some(ev));
                 }
                 Event::MappingEnd => {
@@ -441,6 +453,8 @@ impl<'a> LiveEvents<'a> {
                         .map_err(|err| err.with_location(location))?;
                     self.last_location = location;
                     self.produced_any_in_doc = true;
+                    #[cfg(serde_saphyr_verif)]
+                    self.verif_pump(&ev, crate::verif::Source::Parser);
                     return Ok(Some(ev));
                 }
 
@@ -486,6 +500,8 @@ impl<'a> LiveEvents<'a> {
                             self.record(&ev, false, false);
                             self.last_location = location;
                             self.produced_any_in_doc = true;
+                            #[cfg(serde_saphyr_verif)]
+                            self.verif_pump(&ev, crate::verif::Source::Synth);
                             return Ok(Some(ev));
                         }
                         return Err(Error::RecursiveReferencesRequireWeakTypes { location });
@@ -504,6 +520,12 @@ impl<'a> LiveEvents<'a> {
                         anchor_id,
                         idx: 0,
                         reference_location: location,
+                    });
+                    #[cfg(serde_saphyr_verif)]
+                    crate::verif::emit(crate::verif::VerifEvent::AliasPush {
+                        anchor_id,
+                        buf_len: self.anchors[anchor_id].as_ref().map_or(0, |b| b.len()),
+                        depth: self.inject.len(),
                     });
                     return self.next_impl();
                 }
@@ -559,6 +581,8 @@ impl<'a> LiveEvents<'a> {
             self.produced_any_in_doc = true;
             self.synthesized_null_emitted = true;
             self.last_location = ev.location();
+            #[cfg(serde_saphyr_verif)]
+            self.verif_pump(&ev, crate::verif::Source::Synth);
             return Ok(Some(ev));
         }
 
@@ -596,6 +620,8 @@ impl<'a> LiveEvents<'a> {
 
         self.total_replayed_events = 0;
         self.seen_doc_end = false;
+        #[cfg(serde_saphyr_verif)]
+        crate::verif::emit(crate::verif::VerifEvent::DocReset);
     }
 
     /// Observe the configured budget for a replayed (injected) event.
@@ -699,6 +725,8 @@ impl<'a> LiveEvents<'a> {
     /// budget enforcement errors with the last known location.
     #[cold]
     pub(crate) fn finish(&mut self) -> Result<(), Error> {
+        #[cfg(serde_saphyr_verif)]
+        crate::verif::emit(crate::verif::VerifEvent::Finish);
         self.io_error()?;
         if let Some(budget) = self.budget.take() {
             let report = budget.finalize();
@@ -767,6 +795,30 @@ impl<'de> Events<'de> for LiveEvents<'de> {
 
     fn input_for_borrowing(&self) -> Option<&'de str> {
         self.input
+    }
+}
+
+#[cfg(serde_saphyr_verif)]
+impl<'a> LiveEvents<'a> {
+    /// Report a pumped event to the verification sink.
+    fn verif_pump(&self, ev: &Ev<'a>, source: crate::verif::Source) {
+        use crate::verif::Kind;
+        let (kind, anchor, scalar_len) = match ev {
+            Ev::Scalar { value, anchor, .. } => (Kind::Scalar, *anchor, value.len()),
+            Ev::SeqStart { anchor, .. } => (Kind::SeqStart, *anchor, 0),
+            Ev::SeqEnd { .. } => (Kind::SeqEnd, 0, 0),
+            Ev::MapStart { anchor, .. } => (Kind::MapStart, *anchor, 0),
+            Ev::MapEnd { .. } => (Kind::MapEnd, 0, 0),
+            Ev::Taken { .. } => return,
+        };
+        crate::verif::emit(crate::verif::VerifEvent::Pump {
+            kind,
+            source,
+            anchor,
+            scalar_len,
+            inject_depth: self.inject.len(),
+            rec_depth: self.rec_stack.len(),
+        });
     }
 }
 
